@@ -129,9 +129,24 @@ class Minimiser:
         self.runs = 0
         self.budget_runs, self.deadline = budget_runs, time.time() + budget_s
 
+    @staticmethod
+    def normalise(cand):
+        """keep derived parts of a plan consistent: a reference session always mirrors the last ordinary session"""
+        ss = cand.get('sessions', [])
+        base = [x for x in ss if 'reference_of' not in x]
+        for x in ss:
+            if 'reference_of' in x and base:
+                src = base[-1]
+                for k in ('start', 'phases', 'kind'):
+                    if k in src:
+                        x[k] = copy.deepcopy(src[k])
+                x['reference_of'] = len(base) - 1
+        cand['sessions'] = base + [x for x in ss if 'reference_of' in x and base]
+
     def test(self, cand):
         if self.runs >= self.budget_runs or time.time() > self.deadline:
             return False
+        self.normalise(cand)
         self.runs += 1
         p = os.path.join(self.workdir, 'min-cand.json')
         json.dump(cand, open(p, 'w'))
